@@ -52,11 +52,11 @@ const (
 	tPathDir
 	tRequestObj
 	tTypeNested
-	tRespBare       // "201": a response without parameter (its body comes from a Body child)
-	tTitleBlank     // Title "  ": a title made of blanks only
-	tHeaders        // Headers with an object body (schema library)
-	tRespArr        // 200 [@l]: array of a user type (schema library)
-	tEnumNoName     // directives written without their required name
+	tRespBare   // "201": a response without parameter (its body comes from a Body child)
+	tTitleBlank // Title "  ": a title made of blanks only
+	tHeaders    // Headers with an object body (schema library)
+	tRespArr    // 200 [@l]: array of a user type (schema library)
+	tEnumNoName // directives written without their required name
 	tServerNoName
 	tTypeNoName
 	tTagNoName
